@@ -149,12 +149,17 @@ Fixpoint vdepth (o : obj) : nat :=
 Definition wf_img_entry_full (L : limits) (kv : bytes * obj) : bool :=
   wf_img_key L (fst kv) && negb (is_null (cnorm (snd kv))) && wf_obj L 0 (snd kv) && no_ref (snd kv)
   && Nat.leb (vdepth (snd kv)) 10.
+(* data behind an ASCII filter: the scanner skips all white space after ID, so the data must
+   not itself start with white space (ISO 32000 8.9.7: white space is not part of ASCII-encoded
+   data); empty data is fine *)
+Definition ascii_data_ok (data : bytes) : bool :=
+  match data with [] => true | b :: _ => negb (is_space b) end.
 Definition wf_image_full (L : limits) (d : list (bytes * obj)) (data : bytes) : bool :=
   nodup_keys d && forallb (wf_img_entry_full L) d && (N.of_nat (length d) <=? max_dict L)
   && (let sd := scanned_dict d in
       let w := img_int sd k_W k_Width in let h := img_int sd k_H k_Height in
       (0 <? w)%Z && (0 <? h)%Z && (w <=? max_img_dim)%Z && (h <=? max_img_dim)%Z && (w * h <=? max_img_pixels)%Z
-      && negb (img_filter_ascii sd)
+      && (negb (img_filter_ascii sd) || ascii_data_ok data)
       && (let len := img_int sd k_L k_Length in
           if (0 <? len)%Z then (len =? Z.of_nat (length data))%Z && (len <=? Z.of_N max_img_bytes)%Z
           else ei_ok 0 data && (blen data + 1 <? max_img_bytes))).
